@@ -378,6 +378,8 @@ func (c *compiler) evalUpdateIndex(left, index, value interface{}) error {
 					if elemType != t {
 						err = fmt.Errorf("cannot use '%v' (untyped %s constant) as %s value in assignment", value, t, elemType)
 					}
+				} else if t := reflect.TypeOf(value); !t.AssignableTo(elemType) {
+					err = fmt.Errorf("cannot use '%v' (%s) as %s value in assignment", value, t, elemType)
 				}
 				if err == nil {
 					rv.Index(i).Set(reflect.ValueOf(value))
@@ -608,6 +610,8 @@ func (c *compiler) arrayOperator(l interface{}, r interface{}, op string) (inter
 			if elemType != t {
 				err = fmt.Errorf("cannot append '%v' (untyped %s constant) as %s value in assignment", r, t, elemType)
 			}
+		} else if t := reflect.TypeOf(r); !t.AssignableTo(elemType) {
+			err = fmt.Errorf("cannot append '%v' (%s) as %s value", r, t, elemType)
 		}
 		if err == nil {
 			return reflect.Append(reflect.ValueOf(l), reflect.ValueOf(r)), nil
